@@ -464,6 +464,11 @@ func (a *encAnalyser) summary(fn *ssa.Function, ref encRef) *encSummary {
 
 // assignedName: the variable a call's result is assigned to in the source (`x := f()`), if any.
 func assignedName(fn *ssa.Function, call *ssa.Call) string {
+	return assignedNameAt(fn, call.Pos())
+}
+
+// assignedNameAt: the variable the call expression whose '(' is at pos is assigned to.
+func assignedNameAt(fn *ssa.Function, pos token.Pos) string {
 	syn := fn.Syntax()
 	if syn == nil {
 		return ""
@@ -486,7 +491,7 @@ func assignedName(fn *ssa.Function, call *ssa.Call) string {
 			return true
 		}
 		for i, r := range rhs {
-			if ce, ok := r.(*ast.CallExpr); ok && ce.Lparen == call.Pos() {
+			if ce, ok := r.(*ast.CallExpr); ok && ce.Lparen == pos {
 				if id, ok := lhs[i].(*ast.Ident); ok {
 					name = id.Name
 				}
